@@ -281,7 +281,44 @@ func c13Classify(t reflect.Type, v reflect.Value, rule string, det map[string]st
 	return ""
 }
 
+// the indenting interpreter beside its model (op c13.indent): generated value trees realised as Go values,
+// MarshalIndent with white-space and other prefixes / indents, byte for byte
+func c13ModelCases(o *Out) {
+	r := o.rng
+	n := 1500
+	if o.tier == "thorough" {
+		n = 20000
+	}
+	pairs := [][2]string{{"", "  "}, {"", "\t"}, {" ", " "}, {"", ""}, {"\t\t", "   "}, {">", "--"}, {"", "\n"}, {"p", ""}}
+	for i := 0; i < n; i++ {
+		j := c01GenJ(r, 3)
+		if j.kind == 'Z' {
+			continue
+		}
+		_, v := j.realise(false)
+		var w strings.Builder
+		j.wire(&w)
+		pi := pairs[r.Intn(len(pairs))]
+		for how := 0; how < 2; how++ {
+			var arg interface{} = v.Interface()
+			if how == 1 {
+				p := reflect.New(v.Type())
+				p.Elem().Set(v)
+				arg = p.Interface()
+			}
+			got, err := c01Safe(func() ([]byte, error) { return gojson.MarshalIndentWithOption(arg, pi[0], pi[1], gojson.DisableHTMLEscape()) })
+			res := string(got)
+			if err != nil {
+				res = "ERR " + err.Error()
+			}
+			o.emit("A", "c13.indent", [][]byte{[]byte(w.String()), []byte(pi[0]), []byte(pi[1]), []byte(strconv.Itoa(how))}, []byte(res), nil, false)
+			o.count("indent_model_cases", 1)
+		}
+	}
+}
+
 func runC13(o *Out) {
+	c13ModelCases(o)
 	self, _ := os.Executable()
 	startAll := time.Now()
 	skip := 0
